@@ -1,13 +1,13 @@
-INIT InitSparseAll
+INIT InitDense
 NEXT Next
 CONSTANTS
-  Solver = "sparse"
-  MCN = 3
-  MCLats = {"chain2"}
+  Solver = "dense"
+  MCN = 2
+  MCLats = {"chain2", "chain3", "pow2", "nil5"}
   MCFam = "idgenkill"
-  MCParN = 0
+  MCParN = 2
   UseJson = TRUE
-  EmitCases = FALSE
+  EmitCases = TRUE
 INVARIANTS TypeOK CaseMonotone BelowLFP AtTerminationLFP QueueSound WorklistSound OracleLeast Emit
 PROPERTIES StepMonotone VariantDecreases
 CHECK_DEADLOCK FALSE
